@@ -466,3 +466,30 @@ mutant('C12', 'find_transform rows order', VDF, "transform = np.array([m_axis, n
 mutant('C12', 'xi = n x m', VDF, "self.__ξ = np.cross(m, n)", "self.__ξ = np.cross(n, m)", 'FRAME')
 mutant('C12', 'fallback drops axes', SVF, "                                            transform=transform, axes=axes, box=box,\n                                            m=m, n=n", "                                            transform=transform, box=box,\n                                            m=m, n=n", 'DISPATCH')
 mutant('C12', 'fallback on any exception', SVF, "    except ValueError:", "    except Exception:", 'DISPATCH')
+
+# ------------------------------------------------------------------ C17
+STF = 'atomman/defect/Strain.pyx'
+SVP = 'atomman/defect/slip_vector.pyx'
+DRF = 'atomman/defect/disregistry.py'
+DDF = 'atomman/defect/DifferentialDisplacement.py'
+mutant('C17', 'strain without symmetrisation factor', STF, "strain_view[i,j,k] = ((identity[j,k] - G[i,j,k]) + (identity[k,j] - G[i,k,j])) / 2.", "strain_view[i,j,k] = ((identity[j,k] - G[i,j,k]) + (identity[k,j] - G[i,k,j]))", 'KERNELS')
+mutant('C17', 'rotation symmetric', STF, "rot_view[i,j,k] = ((identity[j,k] - G[i,j,k]) - (identity[k,j] - G[i,k,j])) / 2.", "rot_view[i,j,k] = ((identity[j,k] - G[i,j,k]) + (identity[k,j] - G[i,k,j])) / 2.", 'KERNELS')
+mutant('C17', 'second invariant sign', STF, "- strain[i,0,1] * strain[i,1,0] ", "+ strain[i,0,1] * strain[i,1,0] ", 'KERNELS')
+mutant('C17', 'nye entry indices', STF, "nye[i,1,0] = gradG[2,0,0] - gradG[0,0,2]", "nye[i,1,0] = gradG[2,0,0] - gradG[0,0,1]", 'NYE')
+mutant('C17', 'dG sign', STF, "dG[j, x, y] = G[nlist[i, j+1], x, y] - G[i, x, y]", "dG[j, x, y] = G[i, x, y] - G[nlist[i, j+1], x, y]", 'NYE')
+mutant('C17', 'gradG index order', STF, "gradG_view[x,y,z] = gG_view[z,y]", "gradG_view[x,y,z] = gG_view[y,z]", 'NYE')
+mutant('C17', 'solve_G clears cache only with new theta', STF, "        # Initialize variables\n        self.clear_properties()\n", "        # Initialize variables\n        if theta_max is not None:\n            self.clear_properties()\n", 'SOLVE-G')
+mutant('C17', 'solve_G P and Q swapped', STF, "G[i] = np.linalg.lstsq(Q[:n], P[:n], rcond=None)[0]", "G[i] = np.linalg.lstsq(P[:n], Q[:n], rcond=None)[0]", 'SOLVE-G')
+mutant('C17', 'theta in radians', STF, "cos_theta_max = cos(self.theta_max * pi / 180.0)", "cos_theta_max = cos(self.theta_max)", 'SOLVE-G')
+mutant('C17', 'clear_properties forgets nye', STF, "        self.__rotation = None\n        self.__nye = None\n", "        self.__rotation = None\n", 'SOLVE-G')
+mutant('C17', 'match keeps farther duplicate', STF, "                    if jrad < krad:\n                        qp_pairs[k]=-1", "                    if jrad > krad:\n                        qp_pairs[k]=-1", 'MATCH')
+mutant('C17', 'match picks largest angle', STF, "            if cos_theta > cos_theta_min:", "            if cos_theta < cos_theta_min:", 'MATCH')
+mutant('C17', 'slip sums scratch rows', SVP, "        for n in range(coord):\n            for j in range(3):\n                slipv[i, j] -= d_1[n, j] - d_0[n, j]", "        for n in range(coordmax):\n            for j in range(3):\n                slipv[i, j] -= d_1[n, j] - d_0[n, j]", 'SLIP')
+mutant('C17', 'slip sign', SVP, "slipv[i, j] -= d_1[n, j] - d_0[n, j]", "slipv[i, j] += d_1[n, j] - d_0[n, j]", 'SLIP')
+mutant('C17', 'slip current positions use reference neighbour', SVP, "vpos_1[n, j] = pos_1[ni, j]", "vpos_1[n, j] = pos_0[ni, j]", 'SLIP')
+mutant('C17', 'slip wrapper uses current cell', SVP, "bvects = system_0.box.vects", "bvects = system_1.box.vects", 'SLIP')
+mutant('C17', 'disregistry plane height from y', DRF, "midy = np.dot(planepos, n)", "midy = planepos[1]", 'DISREGISTRY')
+mutant('C17', 'disregistry below minus above', DRF, "disregistry = abovedispinterp - belowdispinterp", "disregistry = belowdispinterp - abovedispinterp", 'DISREGISTRY')
+mutant('C17', 'disregistry initial box', DRF, "disp = displacement(basesystem, dislsystem)", "disp = displacement(basesystem, dislsystem, box_reference='initial')", 'DISREGISTRY')
+mutant('C17', 'ddvectors sign', DDF, "ddvectors = dvectors1 - dvectors0", "ddvectors = dvectors0 - dvectors1", 'DDVECTORS')
+mutant('C17', 'dd neighbour list always from system0', DDF, "self.__neighbors = neighbors = refsystem.neighborlist(cutoff=cutoff)", "self.__neighbors = neighbors = system0.neighborlist(cutoff=cutoff)", 'DDVECTORS')
